@@ -218,6 +218,10 @@ int main(int argc, char** argv) {
         for (uint32_t n : {1u << 14, (1u << 16) + 1, 100000u}) {
             ev_primes(js, n, false);
         }
+        // the list is a function of the bound alone: smaller and repeated bounds (primes themselves, their neighbours) after larger ones
+        for (uint32_t n : {1009u, 1009u, 997u, 998u, 7919u, 2u, 3u, 65521u, 65521u, 1008u, 1010u, 100000u, 99991u, 13u}) {
+            ev_primes(js, n, n <= 1100);
+        }
         // nextpow2 / ispow2 near every power of two and at INT_MAX
         for (int k = 1; k <= 30; ++k) {
             for (long off = -2; off <= 2; ++off) {
